@@ -287,7 +287,21 @@ class MiniEval:
             self.assign(e.target, v, env)
             return v
         if isinstance(e, ast.JoinedStr):
-            return '<fstring>'
+            parts = []
+            for v in e.values:
+                if isinstance(v, ast.Constant):
+                    parts.append(str(v.value))
+                    continue
+                val = self.expr(v.value, env)
+                if not isinstance(val, (str, int, float, bool, type(None))):
+                    return '<fstring>'  # opaque operand: only the fact that a string is built matters
+                spec = self.expr(v.format_spec, env) if v.format_spec is not None else ''
+                if v.conversion == ord('r'):
+                    val = repr(val)
+                elif v.conversion == ord('s'):
+                    val = str(val)
+                parts.append(format(val, spec))
+            return ''.join(parts)
         if isinstance(e, ast.Attribute):
             return self.attribute(e, env)
         if isinstance(e, (ast.ListComp, ast.SetComp, ast.GeneratorExp, ast.DictComp)):
